@@ -35,7 +35,9 @@ import common
 RULE = ("call histories drawn from a grammar: Integrate(k) with k in 0..remaining (biased to 0..3 and to "
         "sizes that end just below / at / just above the current capacity and twice the capacity), "
         "Predict(next | foreign | already used increment), GetPva, GetTime, SetPva(random pva with VD != 0); "
-        "INITIAL_SIZE in {1,2,3,5,8,10000}; both altitude modes; increments with both branches of "
+        "INITIAL_SIZE in {1,2,3,5,8,10000}; both altitude modes; ~40 % of the increment tables store their labelled "
+        "columns in a permuted order with an unrelated extra column, ~30 % of the histories supply every pva as an "
+        "int64 Series of whole numbers (labels define the meaning: the model is unchanged); increments with both branches of "
         "mat_from_rotvec; thorough adds every history of <= 5 ops over {I0,I1,I2,I3,Pnext,Pforeign,S} at "
         "capacity 2 (2D) and 3 (3D), <= 4 ops for the other two mode/capacity pairs.  A case is distinct by (mode, capacity, op sequence); non-trivial if it "
         "integrates at least one increment")
@@ -43,6 +45,7 @@ RULE = ("call histories drawn from a grammar: Integrate(k) with k in 0..remainin
 LABEL = 0.25                      # model time k : Z  <->  index label k * 0.25 (exact in binary64)
 INC_COLS = ['dt', 'theta_x', 'theta_y', 'theta_z', 'dv_x', 'dv_y', 'dv_z']
 CAPS = [1, 2, 3, 5, 8, 10000]
+EXTRA_COL = 'temperature'
 
 
 class KernelOutOfBounds(Exception):
@@ -71,20 +74,42 @@ def make_data(h):
         rs.uniform(-50, 50, npva), rs.uniform(-50, 50, npva),
         rs.choice([-1, 1], npva) * rs.uniform(0.5, 8, npva),
         rs.uniform(-180, 180, npva), rs.uniform(-80, 80, npva), rs.uniform(-180, 180, npva)])
-    return dict(t0=t0, table=table, labels=labels, pvas=pv, cols=TRAJECTORY_COLS)
+    ipva = bool(h.get('ipva'))
+    if ipva:                                  # whole numbers, handed over as int64 Series
+        pv = np.round(pv)
+        pv[:, 5] = np.where(pv[:, 5] == 0, 1.0, pv[:, 5])
+    order = list(INC_COLS)
+    if h.get('cols'):                         # labelled columns stored in another order + an unrelated column
+        rc = np.random.RandomState(int(h['cols']) % (2 ** 31))
+        order = [INC_COLS[i] for i in rc.permutation(7)]
+        if order == list(INC_COLS):
+            order = order[1:] + order[:1]
+        order.insert(int(rc.randint(0, 8)), EXTRA_COL)
+    return dict(t0=t0, table=table, labels=labels, pvas=pv, cols=TRAJECTORY_COLS, ipva=ipva, order=order)
 
 
 def inc_frame(d, ids):
-    return pd.DataFrame(d['table'][list(ids)].reshape(-1, 7),
-                        index=[d['labels'][i] * LABEL for i in ids], columns=INC_COLS)
+    df = pd.DataFrame(d['table'][list(ids)].reshape(-1, 7),
+                      index=[d['labels'][i] * LABEL for i in ids], columns=INC_COLS)
+    if d['order'] != list(INC_COLS):
+        df[EXTRA_COL] = 20.5
+        df = df[d['order']]
+    return df
 
 
 def inc_series(d, i):
-    return pd.Series(d['table'][i].copy(), index=INC_COLS, name=d['labels'][i] * LABEL)
+    s = pd.Series(d['table'][i].copy(), index=INC_COLS, name=d['labels'][i] * LABEL)
+    if d['order'] != list(INC_COLS):
+        s[EXTRA_COL] = 20.5
+        s = s[d['order']]
+    return s
 
 
 def pva_series(d, k, label):
-    return pd.Series(d['pvas'][k].copy(), index=d['cols'], name=label * LABEL)
+    vals = d['pvas'][k].copy()
+    if d['ipva']:
+        vals = vals.astype(np.int64)
+    return pd.Series(vals, index=d['cols'], name=label * LABEL)
 
 
 # ---------------------------------------------------------------------------
@@ -133,7 +158,10 @@ def gen_history(rng, force=None):
             ops.append(['T'])
         else:
             ops.append(['S', 1 + rng.randrange(npva - 1)])
-    return dict(alt=bool(alt), cap=int(cap), seed=rng.randrange(2 ** 30), n=n, nf=nf, npva=npva, ops=ops)
+    cols = force.get('cols', rng.randrange(1, 2 ** 20) if rng.random() < 0.4 else 0)
+    ipva = force.get('ipva', rng.random() < 0.3)
+    return dict(alt=bool(alt), cap=int(cap), seed=rng.randrange(2 ** 30), n=n, nf=nf, npva=npva, ops=ops,
+                cols=int(cols), ipva=bool(ipva))
 
 
 def exhaustive_histories(cap, alt, maxlen=5):
@@ -151,12 +179,13 @@ def exhaustive_histories(cap, alt, maxlen=5):
                     ops.append(['P', cursor if o[1] == 'next' else n])
                 else:
                     ops.append(['S', 1])
+            sc = sum(combo) + ln
             yield dict(alt=alt, cap=cap, seed=1000 * cap + 17 * ln + sum(combo), n=n, nf=1, npva=2,
-                       ops=ops + [['G'], ['T']])
+                       ops=ops + [['G'], ['T']], cols=(100 + sc) if sc % 3 == 0 else 0, ipva=(sc % 4 == 1))
 
 
 def hist_key(h):
-    return (h['alt'], h['cap'], tuple(tuple(o) for o in h['ops']))
+    return (h['alt'], h['cap'], bool(h.get('cols')), bool(h.get('ipva')), tuple(tuple(o) for o in h['ops']))
 
 
 # ---------------------------------------------------------------------------
@@ -290,7 +319,7 @@ def statement_failures(h, d, real):
     try:
         with instrumented(10000, log):
             for k, (pid, ids, _) in enumerate(segs):
-                p = pd.Series(d['pvas'][pid].copy(), index=d['cols'], name=label)
+                p = pva_series(d, pid, label / LABEL)
                 f = strapdown.Integrator(p, with_altitude=h['alt'])
                 f.integrate(inc_frame(d, ids))
                 idx = [float(x) for x in f.trajectory.index]
@@ -398,6 +427,12 @@ def shrink(h, pred=None, budget=400):
             if pred(c):
                 h, changed = normalise(c), True
                 break
+    for key, plain in (('cols', 0), ('ipva', False)):
+        if h.get(key):
+            c = copy.deepcopy(h)
+            c[key] = plain
+            if pred(c):
+                h = normalise(c)
     used = sum(o[1] for o in h['ops'] if o[0] == 'I')
     c = copy.deepcopy(h)
     c['n'] = max(1, used)
@@ -777,6 +812,13 @@ def corpus(modes=(True, False)):
                              ['S', 2], ['I', 0], ['G'], ['T'], ['I', 3]]))
         out.append(dict(alt=alt, cap=10000, seed=12, n=4, nf=1, npva=2,
                         ops=[['P', 0], ['I', 4], ['S', 1], ['G'], ['T']]))
+        # increments stored as (theta, dv, dt) / another permutation with an unrelated column; int64 pvas
+        out.append(dict(alt=alt, cap=2, seed=13, n=5, nf=1, npva=3, cols=4711, ipva=False,
+                        ops=[['P', 0], ['I', 1], ['P', 1], ['P', 5], ['I', 2], ['S', 1], ['P', 3], ['I', 2], ['G']]))
+        out.append(dict(alt=alt, cap=3, seed=14, n=5, nf=1, npva=3, cols=0, ipva=True,
+                        ops=[['G'], ['S', 2], ['G'], ['P', 0], ['I', 2], ['S', 1], ['I', 3], ['G'], ['T']]))
+        out.append(dict(alt=alt, cap=1, seed=15, n=4, nf=1, npva=3, cols=99, ipva=True,
+                        ops=[['P', 0], ['I', 2], ['S', 1], ['P', 2], ['I', 2], ['G']]))
     return out
 
 
@@ -954,6 +996,8 @@ def distribution(results):
         h = x['h']
         caps[h['cap']] += 1
         modes['3D' if h['alt'] else '2D'] += 1
+        modes['permuted increment columns + extra column'] += 1 if h.get('cols') else 0
+        modes['int64 whole-number pva'] += 1 if h.get('ipva') else 0
         grow[min(x['growth'], 4)] += 1
         for o in h['ops']:
             ops[o[0]] += 1
